@@ -146,6 +146,7 @@ def run_shard(shard, rec):
     coherence(w, report_live, tick)
     coherence(P, report_pinned, lambda s: None)
     encrypted_layouts(P, rec)
+    attribute_field_widths(P, rec)
     rec.count("types_walked", len(w["types"]))
     rec.count("area_types_walked", len(w["area_types"]))
     rec.count("command_codes", len(w["command_codes"]))
@@ -198,6 +199,33 @@ def encrypted_layouts(P, rec):
             rec.count("encrypted_layouts_derived")
             if got != exp:
                 rec.violation("encrypted-layout", f"tables/{table_name}", f"{T.__name__} (code {int(cc):#x}) under parameter encryption has fields {got}, the pinned fields give {exp}", dict(kind="coherence", message=T.__name__))
+
+
+def attribute_field_widths(P, rec):
+    """The width and position of an attribute field is what its accessor returns for the all-ones word, the field's own
+    mask and each single bit of it - compared with the pinned masks (a mask table alone does not say how a field is read)."""
+    from .. import trace as TR
+
+    for tn, d in sorted(P["types"].items()):
+        if d["kind"] != "prim" or "bits" not in d:
+            continue
+        T = TR.type_by_name(tn)
+        w = 8 * d["width"]
+        for name, mask in d["bits"].items():
+            if mask <= 0:
+                continue
+            low = (mask & -mask).bit_length() - 1
+            for v in {(1 << w) - 1, mask} | {1 << b for b in range(w) if (mask >> b) & 1}:
+                rec.case(("field-width", tn, name, v))
+                try:
+                    got = getattr(T(v), name)
+                except Exception as e:
+                    rec.violation("field-width", f"{tn}.{name}:raises", f"{tn}({v:#x}).{name} raises {type(e).__name__}: {e}", dict(kind="coherence", message=tn))
+                    break
+                if got != (v & mask) >> low:
+                    rec.violation("field-width", f"{tn}.{name}", f"{tn}({v:#x}).{name} = {got!r}; the pinned field {mask:#x} (bits {mask.bit_length() - 1}:{low}) gives {(v & mask) >> low:#x}", dict(kind="coherence", message=tn))
+                    break
+        rec.count("attribute_types_read")
 
 
 def after_use(rec, P, tier):
